@@ -1,7 +1,7 @@
 import TypstyleModel.Model.Printer.Base
 /-! `code_flow.rs`, `code_list.rs`, `code_misc.rs`, `code_chain.rs`, `func_call.rs`, `table.rs`, `import.rs`. -/
 namespace Typstyle
-open Pretty
+open Twin
 
 /-! ### code_flow.rs: simple flow constructs -/
 
@@ -179,7 +179,7 @@ def convClosure (e : Env) (r : Rec) (ctx : Ctx) (n : ANode) : M Doc := do
 def convContentBlock (e : Env) (r : Rec) (ctx : Ctx) (n : ANode) : M Doc := do
   let body ← childOr (n.children.find? (·.kind == .markup)) "ContentBlock without Markup"
   let d ← r.markup ctx body .contentBlock
-  pure (((d.nst e.cfg.tab).grp).enclose (e.syn "[") (e.syn "]"))
+  pure (((d.nstTab).grp).enclose (e.syn "[") (e.syn "]"))
 
 def codeBlockItem (r : Rec) (c : Ctx) (x : ANode) : M (Option Doc) := do
   if isExpr x then pure (some (← r.expr c x)) else pure none
@@ -260,8 +260,8 @@ def plainArgStep (e : Env) (r : Rec) (ctx : Ctx) (acc : List PItem × Bool) (chi
     if cnt > 0 then
       if !items.isEmpty then pure (items ++ [PItem.linebreak (min cnt (e.cfg.blankUpper + 1))], true) else pure (items, true)
     else pure (items, ml)
-  | .lineComment => pure (items ++ [PItem.lineComment (← convComment e child)], true)
-  | .blockComment => pure (items ++ [PItem.blockComment (← convComment e child)], ml)
+  | .lineComment => pure (items ++ [PItem.lineComment (← convCommentT e child)], true)
+  | .blockComment => pure (items ++ [PItem.blockComment (← convCommentT e child)], ml)
   | _ => if isArg child then pure (items ++ [PItem.item (← convArg e r ctx child)], ml) else pure (items, ml)
 
 /-- `convert_parenthesized_args_as_list` (non-reflowable `table`/`grid`). -/
@@ -269,7 +269,7 @@ def convParenArgsAsList (e : Env) (r : Rec) (ctx : Ctx) (args : ANode) : M Doc :
   let ctx := ctx.withMode .codeCont
   let acc ← (parenArgsUntyped args).foldlM (plainArgStep e r ctx) (([] : List PItem), false)
   let inner := plainPrint e (dropTrailingPLinebreaks acc.1) acc.2
-  pure ((inner.nst e.cfg.tab).enclose (e.soft "(") (e.soft ")"))
+  pure ((inner.nstTab).enclose (e.soft "(") (e.soft ")"))
 
 /-- `convert_additional_args`: trailing content blocks. -/
 def convAdditionalArgs (e : Env) (r : Rec) (ctx : Ctx) (args : ANode) (hasParen : Bool) : M Doc := do
@@ -313,7 +313,7 @@ def convArgsInMath (e : Env) (r : Rec) (ctx : Ctx) (args : ANode) : M Doc := do
   let inner ← flowM e ctx children false (mathArgProducer e r)
   if args.attrs.multiline then
     let close := if endsWithLineComment then hardline else line_
-    pure (((((line_ ++ inner).nst e.cfg.tab) ++ close).grp).enclose (e.syn "(") (e.syn ")"))
+    pure (((((line_ ++ inner).nstTab) ++ close).grp).enclose (e.syn "(") (e.syn ")"))
   else pure (inner.enclose (e.syn "(") (e.syn ")"))
 
 /-! ### table.rs -/
@@ -411,7 +411,7 @@ def convTable (e : Env) (r : Rec) (ctx : Ctx) (fc : ANode) (columns : Nat) : M D
   let rr := posArgs.foldl (tableRowStep columns) (([] : List (List ANode)), ([] : List ANode))
   let rows := if !rr.2.isEmpty then rr.1 ++ [rr.2] else rr.1
   let d ← rows.foldlM (tableRowDocStep e r ctx rows.length) (doc, 0)
-  pure (((d.1.nst e.cfg.tab) ++ hardline).enclose (e.soft "(") (e.soft ")"))
+  pure (((d.1.nstTab) ++ hardline).enclose (e.soft "(") (e.soft ")"))
 
 /-- `convert_func_call_args`. -/
 def convFuncCallArgs (e : Env) (r : Rec) (ctx : Ctx) (fc args : ANode) : M Doc := do
@@ -607,7 +607,7 @@ def importSortable (nodes : List ANode) : Bool :=
   nodes.all (fun n => !isCommentKind n.kind) && noDupNames nodes []
 
 /-- The order in which `convert_import_items` hands the flattened nodes to the list stylist. -/
-def importOrder (cfg : Config) (nodes : List ANode) : List ANode :=
+def importOrder (cfg : PConfig) (nodes : List ANode) : List ANode :=
   if cfg.reorder && importSortable nodes then stableSort ANode.intoText nodes else nodes
 
 /-- `convert_import_items`. -/
